@@ -187,6 +187,8 @@ def run(module, cfg, spec_dir, files=None, workers=16, timeout=3600, simulate=No
                 f.write(out)
         if res.timed_out:
             return res
+        if simulate and not res.ok and res.violated is None and res.error is None and "Error:" not in out:
+            res.ok = True          # a simulation run that ends without an error prints no "No error has been found"
         if not res.ok and res.violated is None:
             tail = "\n".join(out.splitlines()[-40:])
             raise TLCError("TLC failed on %s/%s:\n%s" % (module, cfg, tail))
